@@ -228,7 +228,7 @@ void profile_mesh(const json& plan, Ctx& ctx) {
 			ctx.hist.str(so.bytes);
 			if (so.rc != 0) ctx.viol("restart:save-failed", where + ": Save returned " + std::to_string(so.rc));
 			if (!jbool(st, "dtor", true)) (void) w.nif.release(); // crash: the old process image simply vanishes
-			auto fresh = std::make_unique<NifFile>();
+			auto fresh = restartObject(w.nif, ctx);
 			LoadOut lo = loadNif(*fresh, so.bytes);
 			if (lo.rc != 0) ctx.viol("restart:reload-failed", where + ": the saved model does not load (rc=" + std::to_string(lo.rc) + ")");
 			w.nif = std::move(fresh);
